@@ -608,6 +608,9 @@ class C14(Prop):
                     continue
                 yield {"kind": "shadow", "loader": "fs2", "cap": 2, "reload": True, "h": [list(op) for op in hist],
                        "mtime": "back" if n % 2 else "fwd"}
+                if n <= 4:
+                    yield {"kind": "shadow", "loader": "choice", "cap": 2, "reload": True,
+                           "h": [list(op) for op in hist], "mtime": "fwd"}
 
     def enumerated_is_exhaustive(self, tier: str) -> bool:
         return True
@@ -640,7 +643,13 @@ class C14(Prop):
             paths = [os.path.join(root, "p1"), os.path.join(root, "p2")]
             for p in paths:
                 os.makedirs(p)
-            cached = Environment(loader=CachingFileSystemLoader(paths, auto_reload=True, capacity=case["cap"]))
+            via_choice = case.get("loader") == "choice"
+            if via_choice:
+                # the same two directories as two delegates of a caching choice loader
+                cached = Environment(loader=CachingChoiceLoader([FileSystemLoader(paths[0]), FileSystemLoader(paths[1])],
+                                                                auto_reload=True, capacity=case["cap"]))
+            else:
+                cached = Environment(loader=CachingFileSystemLoader(paths, auto_reload=True, capacity=case["cap"]))
             tick = 0
             changed = False
             for i, op in enumerate(case["h"]):
@@ -673,7 +682,8 @@ class C14(Prop):
                     if changed and i:
                         res.nontrivial = True
                     if outs[0] != outs[1]:
-                        res.fail("uncached-view", f"search-path-shadow:{'async' if op[1] == 'a' else 'sync'}",
+                        res.fail("uncached-view",
+                                 f"search-path-shadow:{'choice:' if via_choice else ''}{'async' if op[1] == 'a' else 'sync'}",
                                  f"step {i}: the caching loader gave {outs[0]!r}, an uncached loader over the same "
                                  f"search paths gives {outs[1]!r}; history={case['h']}")
                         return res
